@@ -657,8 +657,10 @@ SU_vector& SU_vector::operator=(const SU_vector& other){
     dim=0;
     size=0;
     components=nullptr;
-    alloc_aligned(other.dim,other.size,components,ptr_offset);
-    isinit=true;
+    if(other.size){ //an empty source leaves this vector empty, without a zero-length block
+      alloc_aligned(other.dim,other.size,components,ptr_offset);
+      isinit=true;
+    }
     dim=other.dim;
     size=other.size;
   }
